@@ -275,6 +275,77 @@ theorem withholding_one_for_one (co cw co' cw' c25a c25b c25c c26 c32 c24 δ : I
     (h' : co' - cw' = (c25a + δ) + c25b + c25c + c26 + c32 - c24) :
     (co' - cw') - (co - cw) = δ := by omega
 
+/-! ## other per-payer totals of the shape `float(sum(copies))` -/
+
+/-- line `lname` of the (instance-less) form `fname` is `float(sum([v[f'{pre}{n}{post}'] for n in
+range(i[cnt])]))`, `cntName` being the full name of the count input -/
+structure FloatSumLine (y : YearDecl) (c : ClassDecl) (l : LineDecl)
+    (fname lname cnt cntName pre post : String) : Prop where
+  cname : c.name = fname
+  body : l.body = shapeFloatSumCopies cnt pre post ∧ l.kind = .float 2
+  sem : (mkCat y).sem (fname ++ "." ++ lname) = evalLine y c none l
+  cntq : qual' fname none cnt = cntName
+  dot : post.toList.contains '.' = true
+
+section floatsum
+variable {y : YearDecl} {c : ClassDecl} {l : LineDecl} {fname lname cnt cntName pre post : String}
+variable (vs : String → Option Val) (is : String → InpRes Val) (fs : String → Bool)
+
+/-- **such a line is the sum of the copies' amounts, in cents** (at most 64 copies) -/
+theorem float_sum_line_total (hS : FloatSumLine y c l fname lname cnt cntName pre post)
+    (k : Int) (f : Int → F64) (cs : Int → Int) (hk : k ≤ 64)
+    (hcnt : is cntName = .ok (.int k))
+    (hv : ∀ j : Nat, j < k.toNat → vs (copyKey pre post j) = some (.float (f j)))
+    (hc : ∀ j : Nat, j < k.toNat → Cent (f j) (cs j) ∧ (cs j).natAbs ≤ 100000000000) :
+    ∃ x, run vs is fs ((mkCat y).sem (fname ++ "." ++ lname)) = .val (.float x) ∧
+      Cent x (copyCents cs k).sum := by
+  refine ⟨_, ?_, cent_sum_copies f cs k hk hc⟩
+  rw [hS.sem]
+  exact eval_floatSumCopies vs is fs y c none l cnt pre post 2 hS.body.1 hS.body.2 k f
+    (by rw [hS.cname, hS.cntq]; exact hcnt) (by omega) hS.dot hv
+
+/-- **renumbering the copies does not change such a line** -/
+theorem float_sum_line_renumbering (hS : FloatSumLine y c l fname lname cnt cntName pre post)
+    (vs' : String → Option Val) (is' : String → InpRes Val) (fs' : String → Bool)
+    (k : Int) (f f' : Int → F64) (cs cs' : Int → Int) (hk : k ≤ 64)
+    (hcnt : is cntName = .ok (.int k)) (hcnt' : is' cntName = .ok (.int k))
+    (hv : ∀ j : Nat, j < k.toNat → vs (copyKey pre post j) = some (.float (f j)))
+    (hv' : ∀ j : Nat, j < k.toNat → vs' (copyKey pre post j) = some (.float (f' j)))
+    (hc : ∀ j : Nat, j < k.toNat → Cent (f j) (cs j) ∧ (cs j).natAbs ≤ 100000000000)
+    (hc' : ∀ j : Nat, j < k.toNat → Cent (f' j) (cs' j) ∧ (cs' j).natAbs ≤ 100000000000)
+    (hperm : (copyCents cs' k).Perm (copyCents cs k)) :
+    ∃ x x' t, run vs is fs ((mkCat y).sem (fname ++ "." ++ lname)) = .val (.float x) ∧
+      run vs' is' fs' ((mkCat y).sem (fname ++ "." ++ lname)) = .val (.float x') ∧
+      Cent x t ∧ Cent x' t ∧ (t ≠ 0 → x = x') := by
+  obtain ⟨x, hx, cx⟩ := float_sum_line_total vs is fs hS k f cs hk hcnt hv hc
+  obtain ⟨x', hx', cx'⟩ := float_sum_line_total vs' is' fs' hS k f' cs' hk hcnt' hv' hc'
+  rw [perm_sum_int hperm] at cx'
+  exact ⟨x, x', _, hx, hx', cx, cx', fun h0 => Cent.eq_of_ne_zero cx cx' h0
+    (copyCents_sum_bound cs k hk fun j hj => (hc j hj).2)⟩
+
+end floatsum
+
+/-- the regenerated programs that have this shape (checked by the kernel on every run): tax-exempt
+interest (1040 line 2a), Medicare wages and Medicare tax withheld (Form 8959 lines 1 and 19) -/
+theorem float_sum_lines_2021 :
+    FloatSumLine year2021 Y2021.c_1040 (lineOf Y2021.c_1040 "2a") "1040" "2a" "number_1099-int" "1040.number_1099-int" "1099-int:" ".box_8" ∧
+    FloatSumLine year2021 Y2021.c_8959 (lineOf Y2021.c_8959 "1") "8959" "1" "1040.number_w-2" "1040.number_w-2" "w-2:" ".box_5" ∧
+    FloatSumLine year2021 Y2021.c_8959 (lineOf Y2021.c_8959 "19") "8959" "19" "1040.number_w-2" "1040.number_w-2" "w-2:" ".box_6" :=
+  ⟨⟨rfl, ⟨rfl, rfl⟩, rfl, by decide, by decide⟩, ⟨rfl, ⟨rfl, rfl⟩, rfl, by decide, by decide⟩,
+   ⟨rfl, ⟨rfl, rfl⟩, rfl, by decide, by decide⟩⟩
+theorem float_sum_lines_2022 :
+    FloatSumLine year2022 Y2022.c_1040 (lineOf Y2022.c_1040 "2a") "1040" "2a" "number_1099-int" "1040.number_1099-int" "1099-int:" ".box_8" ∧
+    FloatSumLine year2022 Y2022.c_8959 (lineOf Y2022.c_8959 "1") "8959" "1" "1040.number_w-2" "1040.number_w-2" "w-2:" ".box_5" ∧
+    FloatSumLine year2022 Y2022.c_8959 (lineOf Y2022.c_8959 "19") "8959" "19" "1040.number_w-2" "1040.number_w-2" "w-2:" ".box_6" :=
+  ⟨⟨rfl, ⟨rfl, rfl⟩, rfl, by decide, by decide⟩, ⟨rfl, ⟨rfl, rfl⟩, rfl, by decide, by decide⟩,
+   ⟨rfl, ⟨rfl, rfl⟩, rfl, by decide, by decide⟩⟩
+theorem float_sum_lines_2023 :
+    FloatSumLine year2023 Y2023.c_1040 (lineOf Y2023.c_1040 "2a") "1040" "2a" "number_1099-int" "1040.number_1099-int" "1099-int:" ".box_8" ∧
+    FloatSumLine year2023 Y2023.c_8959 (lineOf Y2023.c_8959 "1") "8959" "1" "1040.number_w-2" "1040.number_w-2" "w-2:" ".box_5" ∧
+    FloatSumLine year2023 Y2023.c_8959 (lineOf Y2023.c_8959 "19") "8959" "19" "1040.number_w-2" "1040.number_w-2" "w-2:" ".box_6" :=
+  ⟨⟨rfl, ⟨rfl, rfl⟩, rfl, by decide, by decide⟩, ⟨rfl, ⟨rfl, rfl⟩, rfl, by decide, by decide⟩,
+   ⟨rfl, ⟨rfl, rfl⟩, rfl, by decide, by decide⟩⟩
+
 end HabuVerif.C16
 
 #print axioms HabuVerif.C16.shapes_2021
@@ -285,3 +356,8 @@ end HabuVerif.C16
 #print axioms HabuVerif.C16.net_is_payments_minus_tax
 #print axioms HabuVerif.C16.solved_net_is_payments_minus_tax
 #print axioms HabuVerif.C16.withholding_one_for_one
+#print axioms HabuVerif.C16.float_sum_line_total
+#print axioms HabuVerif.C16.float_sum_line_renumbering
+#print axioms HabuVerif.C16.float_sum_lines_2021
+#print axioms HabuVerif.C16.float_sum_lines_2022
+#print axioms HabuVerif.C16.float_sum_lines_2023
